@@ -32,6 +32,21 @@ func init() {
 		}
 		return true
 	}
+	// {"kind":"unstable-ids","path":…,"doc":wire,"vars":wire|null}: the keyvalue ids of repeated executions differ
+	witnessFns["unstable-ids"] = func(w map[string]any) bool {
+		in := inputFromCase(w)
+		if in == nil {
+			return false
+		}
+		c := &execCase{Entry: "query", ZoneID: "UTC"}
+		first := rawKVIDs(in.p, in.doc, in.vars, c)
+		for i := 0; i < 6; i++ {
+			if !reflect.DeepEqual(first, rawKVIDs(in.p, in.doc, in.vars, c)) {
+				return true
+			}
+		}
+		return false
+	}
 	// {"kind":"print","text":…,"printed":…}: Parse(text).String() == printed (the defective text)
 	witnessFns["print"] = func(w map[string]any) bool {
 		text, _ := w["text"].(string)
